@@ -21,6 +21,11 @@ THEOREMS = [
     "Verif.C12.ems_distance_solves",
     "Verif.C12.ms_force_distance",
     "Verif.C12.odijk_distance_force",
+    "Verif.C12.odijk_selected_root",
+    "Verif.C12.odijk_distance_of_force",
+    "Verif.C12.odijk_force_of_distance",
+    "Verif.C12.trig_root_order",
+    "Verif.C12.ms_selected_root_partial",
     "Verif.C12.composite_is_sum",
     "Verif.C12.offset_shifts_independent",
     "Verif.C12.routing_by_name",
@@ -63,6 +68,9 @@ ASSUMPTIONS = [
     "precision' of the closed forms is NOT 1e-9",
     "SciPy round trips are required to the stopping rule of the solver: |residual * slope| * min(1, x-lo, hi-x) <= 1e-7 "
     "or |dx| <= 1e-6 |x| (least squares), plus 5e-3 (|x| < 0.2) / 2e-4 relative for the spline variant",
+    "the spline variant of Model.invert() uses a fixed knot spacing of 0.01 in the parent's independent variable; when a "
+    "force model is inverted (knots in um) it is only generated for data spanning >= 1 um (>= 100 knots): coarser grids "
+    "are inaccurate by construction (seen: 1.3e-3 relative with 8 knots) and say nothing about the property",
     "validity limits used for '80% of the validity limit': St (Odijk, eMS, eFJC), f_max = (-g0 + sqrt(St C))/g1 "
     "(tWLC, from twlc_solve_force), 100 pN for the inextensible Marko-Siggia pair (d < Lc always)",
 ]
@@ -397,15 +405,15 @@ def run_case(case):
                     steps = [(e[1], list(np.array(xs) - o))]
             elif t == "inv":
                 x0 = [float(v) for v in a0]
-                steps = [(e[1], x0), (e[1], [v * (1 + 1e-6) for v in x0]), (e[1], [v * (1 - 1e-6) for v in x0])]
-            elif t == "b" and base_kind(e) in PARTNER:
+                steps = [(e[1], x0), (e[1], [v * (1 + FD) for v in x0]), (e[1], [v * (1 - FD) for v in x0])]
+            elif t == "b" and base_kind(e) in PARTNER and case.get("valid"):
                 partner = ["b", PARTNER[base_kind(e)], e[2]]
                 x0 = [float(v) for v in a0]
                 steps = [(partner, x0)]
                 if PARTNER[base_kind(e)] in SOLVER_KINDS or base_kind(e) in SOLVER_KINDS:
                     # slope of the non-solver member of the pair around the solver's answer / input
                     fwd, at = (e, xs) if PARTNER[base_kind(e)] in SOLVER_KINDS else (partner, x0)
-                    steps += [(fwd, [v * (1 + 1e-6) for v in at]), (fwd, [v * (1 - 1e-6) for v in at])]
+                    steps += [(fwd, [v * (1 + FD) for v in at]), (fwd, [v * (1 - FD) for v in at])]
             for (se, sx) in steps:
                 if not all(math.isfinite(v) for v in sx):
                     ans.append("skipped-nonfinite")
@@ -502,6 +510,8 @@ def agree(case, i, ia, ma):
 # ------------------------------------------------------------------ oracle (plain Python from the property text)
 
 TOL_EXPLICIT = 1e-9
+FD = 1e-4  # relative step of the slope estimates (well above the 1e-5 rounding noise of the Cardano closed forms)
+NOISE_CUBIC = 2e-5  # relative rounding noise of a cubic-based closed form: an inversion cannot resolve its parent below it
 TOL_CLOSED = 2e-4
 
 
@@ -514,7 +524,7 @@ def dec_vals(s):
 def solver_ok(x_true, x_back, slope_pts, lo, hi, interp):
     """the stopping rule of the SciPy inversion (see ASSUMPTIONS): x_back = inverse(forward(x_true))"""
     up, dn, x_at = slope_pts
-    h = 2e-6 * abs(x_at)
+    h = 2 * FD * abs(x_at)
     slope = abs(up - dn) / h if h > 0 else float("inf")
     if slope == 0 or not math.isfinite(slope):
         return True
@@ -548,7 +558,11 @@ def oracle(case, ia):
         p = b - a * a / 3.0
         q = 2 * a**3 / 27.0 - a * b / 3.0 + c
         det = q * q / 4 + p**3 / 27
-        if len(vals) == 3 and det < -1e-9 * (q * q / 4 + abs(p) ** 3 / 27):
+        # rounding error of det as computed from the coefficients (cancellation in p, q and det itself)
+        P_, Q_ = abs(b) + a * a / 3.0, 2 * abs(a) ** 3 / 27.0 + abs(a * b) / 3.0 + abs(c)
+        det_err = 1e-15 * (abs(q) * Q_ / 2 + p * p * P_ / 9 + q * q / 4 + abs(p) ** 3 / 27)
+        distinct = len(vals) == 3 and len({v for _, v in vals}) == 3
+        if distinct and det < -1e3 * det_err:
             y0, y1, y2 = vals[0][1], vals[1][1], vals[2][1]
             sc = max(abs(y0), abs(y1), abs(y2), abs(a))
             if abs(y0 + y1 + y2 + a) > 1e-6 * sc:
@@ -666,14 +680,15 @@ def oracle_chain(case, ia):
         lo, hi = fl(e[2]), fl(e[3])
         for i, (y, x, bk) in enumerate(zip(xs, got, back)):
             # y = requested value of the parent's dependent variable, x = implementation's inverse, bk = parent(x)
-            slope = abs(up[i] - dn[i]) / (2e-6 * abs(x)) if x != 0 else float("inf")
+            slope = abs(up[i] - dn[i]) / (2 * FD * abs(x)) if x != 0 else float("inf")
             if not math.isfinite(slope) or slope == 0 or not math.isfinite(bk):
                 continue
             room = max(1e-3, min(1.0, abs(x - lo), abs(hi - x)))
             tol_x = 1e-6 * abs(x) + 1e-7 / (slope * slope * room)
             if e[4]:
                 tol_x += (5e-3 if abs(x) < 0.2 else 2e-4) * abs(x)
-            if abs(bk - y) > slope * tol_x * 1.01 + 1e-12 * abs(y):
+            noise = NOISE_CUBIC * abs(y) if any(base_kind(lf) in CUBIC_KINDS for lf in leaves(e[1])) else 0.0
+            if abs(bk - y) > slope * tol_x * 1.01 + 1e-12 * abs(y) + noise:
                 return (f"inverse-round-trip: invert(model)({y}) = {x} but model({x}) = {bk}: residual {bk - y:.3e} exceeds the "
                         f"solver precision {slope * tol_x:.3e}")
         return None
@@ -740,7 +755,7 @@ def oracle_chain(case, ia):
             else:
                 # x is a distance, got = solver_force(x), back = distance(got): residual in distance units
                 F = got[i]
-                slope = abs(up[i] - dn[i]) / (2e-6 * abs(F)) if F != 0 else float("inf")
+                slope = abs(up[i] - dn[i]) / (2 * FD * abs(F)) if F != 0 else float("inf")
                 if not math.isfinite(slope) or slope == 0:
                     continue
                 room = max(1e-3, min(1.0, abs(F - lo), abs(hi - F)))
@@ -859,7 +874,9 @@ def forces_for(rng, kind, a, n, boundary=True):
     out = []
     for _ in range(n):
         r = rng.random()
-        if boundary and r < 0.1:
+        if boundary and kind.startswith("twlc") and r < 0.08 and a[6] < lim:
+            out.append(a[6])  # exactly the critical force Fc (the kink of the tWLC)
+        elif boundary and r < 0.1:
             out.append(0.05)
         elif boundary and r < 0.2:
             out.append(lim)
@@ -1089,6 +1106,8 @@ def inv_limits(e0, p, xs0, interp):
         lo, hi = 0.0, min(Lc * 0.995, max(max(xs0) * 1.05, 1.0 + 1e-9))
         if kind in ("ewlc_odijk_force", "ewlc_marko_siggia_force", "efjc_force", "twlc_force"):
             hi = max(max(xs0) * 1.05, 1.0 + 1e-9)
+            # Odijk-type curves assign a NEGATIVE extension to forces below kT/(4 Lp) (0.03 .. 0.15 pN in the box)
+            lo = min(0.0, min(xs0) - 0.05 * abs(min(xs0)) - 1e-3)
     return lo, hi
 
 
@@ -1099,13 +1118,13 @@ def cases(tier, rng):
 
     # ---- (a) calc_cubic_root
     r = rng.fork("c12-cubic")
-    for i in range(1500 if quick else 60000):
+    for i in range(5000 if quick else 120000):
         yield gen_cubic(r.fork(i), i)
 
     # ---- (b) chains: base constructors with round trip
     r = rng.fork("c12-pairs")
     kinds = [k for k in sorted(KINDS) if not k.endswith("offset")]
-    for i in range(700 if quick else 16000):
+    for i in range(2000 if quick else 30000):
         sub = r.fork(i)
         k = sub.choice(kinds)
         if k in SOLVER_KINDS or PARTNER[k] in SOLVER_KINDS:
@@ -1126,7 +1145,7 @@ def cases(tier, rng):
 
     # ---- composite / offset expressions (solver-free: compared at ~1e-13)
     r = rng.fork("c12-expr")
-    for i in range(500 if quick else 12000):
+    for i in range(1500 if quick else 20000):
         sub = r.fork(i)
         indep = sub.choice(["f", "d"])
         names = sub.sample(["A", "B", "C", "DNA"], sub.randint(1, 3))
@@ -1142,13 +1161,17 @@ def cases(tier, rng):
     # ---- generic inversion, with and without interpolation, of constructors and of composites
     r = rng.fork("c12-invert")
     inv_kinds = [k for k in kinds if k not in SOLVER_KINDS]
-    for i in range(90 if quick else 2500):
+    for i in range(250 if quick else 4000):
         sub = r.fork(i)
         k = sub.choice(inv_kinds)
         e0 = ["b", k, "m"]
         p = draw_params(sub, e0)
         xs0 = base_inputs(sub, e0, p, sub.randint(1, 5))
         interp = sub.chance(0.5)
+        if interp and KINDS[k][2] == "d" and max(xs0) - min(xs0) < 1.0:
+            # the spline grid has a FIXED step of 0.01 in the independent variable of the parent (here: um);
+            # with fewer than ~100 knots over the data the interpolant is coarse by construction (see ASSUMPTIONS)
+            interp = False
         lo, hi = inv_limits(e0, p, xs0, interp)
         inner = e0
         ys = plain_eval_base(e0, p, xs0)
@@ -1167,7 +1190,7 @@ def cases(tier, rng):
     # ---- (c) DNA parametrisations
     r = rng.fork("c12-dna")
     lk_names = [("dsdna_ewlc_odijk_distance", 0.34), ("ssdna_efjc_distance", 0.56), ("dsdna_odijk", 0.34), ("ssdna_fjc", 0.56)]
-    for i in range(40 if quick else 1500):
+    for i in range(100 if quick else 1500):
         sub = r.fork(i)
         ctor, um0 = sub.choice(lk_names)
         kbp = sub.choice([0.5, 1.0, 8.0, 48.502, float(sub.randint(1, 60)), sub.uniform(0.9, 60.0)])
@@ -1180,7 +1203,7 @@ def cases(tier, rng):
 
     # ---- (d) malformed stream
     r = rng.fork("c12-malformed")
-    for i in range(250 if quick else 5000):
+    for i in range(600 if quick else 6000):
         sub = r.fork(i)
         k = sub.choice(kinds)
         e = ["b", k, "m"]
